@@ -194,11 +194,16 @@ class Case(object):
                 "; ".join("[" + "; ".join(coq_expr(s) for s in row) + "]" for row in ss))
             self.kind, lit = "psd", "inr (%s, %s)" % (rec, "true" if dual else "false")
             flat = [s for row in ss for s in row]
+            # the public attribute entries_dual_variable_value is a dual too: None until a solve succeeded
+            self.entries_dual_set = getattr(obj, "entries_dual_variable_value", None) is not None
+            self.entries_dual_must_be_none = never_solved
             self.must_raise = (never_solved or obj._dual_variable_value is None) if dual else \
                 (all(wf_e(s) for s in flat) and ((obj._value is None and any(pending_e(s) for s in flat))
                                                  or (never_solved and any(has_leaf_e(s) for s in flat))))
         else:
             raise TypeError(obj)
+        if not hasattr(self, "entries_dual_set"):
+            self.entries_dual_set, self.entries_dual_must_be_none = False, False
         self.snapshot = lit
         self.input = "(%d%%nat, %s)" % (dim, lit)
         self.got = outcome(obj.eval_dual if dual else obj.eval)
@@ -311,6 +316,8 @@ def scenario(name, rng):
         valued = [p.counter for p in Point.list_of_leaf_points if p._value is not None] + \
                  [e.counter for e in Expression.list_of_leaf_expressions if e._value is not None]
         duals = [c.counter for c in pep._list_of_constraints_sent_to_wrapper if c._dual_variable_value is not None]
+        duals += ["lmi %d" % m.counter for m in pep._list_of_psd_sent_to_wrapper
+                  if m._dual_variable_value is not None or getattr(m, "entries_dual_variable_value", None) is not None]
         if ret is None and (valued or duals):
             problems.append(dict(kind="failed-solve-assigned", model=name, valued_leaves=valued, duals=duals))
         objs += [("after %s solve / objective" % name, pep.objective)]
@@ -328,6 +335,7 @@ def scenario(name, rng):
         if name == "solved":
             cs += cases_of(zoo(rng, P, X, "after a successful solve"))
             cs += cases_of([("sent constraint", c) for c in pep._list_of_constraints_sent_to_wrapper[:4]])
+            cs += cases_of([("sent psd", m) for m in pep._list_of_psd_sent_to_wrapper[:2]])
             return cs, problems
         if name == "solved_new_leaves":
             newP = [Point() for _ in range(rng.randint(1, 2))]
@@ -371,6 +379,9 @@ def stream_accessors(tier, seed, extra=()):
                 if c.must_raise and c.got != "ValueError":
                     problems.append(dict(kind="unsolved-accessor", object_kind=c.kind, label=c.label, dual=c.dual,
                                          got=c.got, snapshot=c.input, scenario=name))
+                if c.entries_dual_must_be_none and c.entries_dual_set:
+                    problems.append(dict(kind="unsolved-accessor", object_kind="psd entries_dual_variable_value",
+                                         label=c.label, dual=True, got="value", snapshot=c.input, scenario=name))
     try:
         bad = run_cases("c16a", IMPORTS, RUN, [(c.input, c.got) for c in cases], input_type=INPUT_TYPE)
         unavailable = None
@@ -394,6 +405,8 @@ def stream_accessors(tier, seed, extra=()):
                 n_problems=len(problems),
                 distribution=dict(object_kinds=hist_kind, outcomes=hist_out, per_scenario=hist_scen,
                                   must_raise_ValueError=sum(1 for c in cases if c.must_raise),
+                                  psd_entries_dual_checked_None=sum(1 for c in cases if c.entries_dual_must_be_none),
+                                  psd_entries_dual_set_after_solve=sum(1 for c in cases if c.entries_dual_set),
                                   behaviour_old_objects_keep_values_after_new_PEP=old_valued,
                                   behaviour_leafless_objects_have_a_value=sum(
                                       1 for c in cases if ("constants only" in c.label or "no leaf" in c.label) and c.got == "value")))
@@ -561,6 +574,9 @@ def search(tier, seed):
                 if c.must_raise and c.got != "ValueError":
                     return dict(kind="unsolved-accessor", object_kind=c.kind, label=c.label, dual=c.dual, got=c.got,
                                 snapshot=c.input, scenario=name)
+                if c.entries_dual_must_be_none and c.entries_dual_set:
+                    return dict(kind="unsolved-accessor", object_kind="psd entries_dual_variable_value", label=c.label,
+                                dual=True, got="value", snapshot=c.input, scenario=name)
     s = stream_solve("quick", seed + 3)
     if s["problems"]:
         return s["problems"][0]
@@ -645,6 +661,8 @@ def replay(payload):
                 for c in cs:
                     if c.must_raise and c.got != "ValueError" and \
                             (payload.get("object_kind") in (None, c.kind)):
+                        return True
+                    if c.entries_dual_must_be_none and c.entries_dual_set:
                         return True
         if kind != "unsolved-accessor" or payload.get("scenario"):
             return False
